@@ -38,14 +38,15 @@ const (
 	skBufReader
 	skSkipDec
 	skReaderDec
-	skBufReaderStrict // BufferReader.Skip over a non-allocating bufiox.Reader (no allocation cap needed)
-	skSkipDecStrict   // SkipDecoder.Next over a non-allocating bufiox.Reader
-	skTplScratch      // SkipDecoderTpl over a caller-written SkipDecoderIface that reuses one scratch buffer for every SkipN
+	skBufReaderStrict  // BufferReader.Skip over a non-allocating bufiox.Reader (no allocation cap needed)
+	skSkipDecStrict    // SkipDecoder.Next over a non-allocating bufiox.Reader
+	skTplScratch       // SkipDecoderTpl over a caller-written SkipDecoderIface that reuses one scratch buffer for every SkipN
+	skBufReaderLenient // BufferReader.Skip over a bufiox.Reader for which Skip(negative) is a no-op
 	nSkippers
 )
 
 var skipperNames = [nSkippers]string{"Binary.Skip", "BytesSkipDecoder.Next", "BufferReader.Skip", "SkipDecoder.Next", "ReaderSkipDecoder.Next",
-	"BufferReader.Skip (non-allocating bufiox.Reader)", "SkipDecoder.Next (non-allocating bufiox.Reader)", "SkipDecoderTpl over a SkipDecoderIface that reuses its buffer"}
+	"BufferReader.Skip (non-allocating bufiox.Reader)", "SkipDecoder.Next (non-allocating bufiox.Reader)", "SkipDecoderTpl over a SkipDecoderIface that reuses its buffer", "BufferReader.Skip (bufiox.Reader whose Skip ignores negative counts)"}
 
 // scratchSkipper is a SkipDecoderIface as its documentation allows: the bytes it returns are only valid until
 // the next SkipN call, because every call copies into (and overwrites) the same scratch buffer. Requests
@@ -433,6 +434,13 @@ func runSkippers(b []byte, t int8, plan faultio.Plan, allowAlloc bool) [nSkipper
 		ss := &scratchSkipper{data: b}
 		o.err = thrift.NewSkipDecoderTpl(ss).Skip(t, 64)
 		o.n = ss.pos
+	})
+	run(skBufReaderLenient, func(o *skipOut) {
+		sr := &faultio.StrictReader{Data: b, Lenient: true}
+		tr := thrift.NewBufferReader(sr)
+		o.err = tr.Skip(t)
+		o.n = int(tr.Readn())
+		tr.Recycle()
 	})
 	if !allowAlloc {
 		return outs
